@@ -28,6 +28,12 @@ impl FileSystemState {
         operations.push(FileSystemOperation::DeleteDirectory(
             artifact_directory.to_path_buf(),
         ));
+        if state.nested_files.is_empty() {
+            // No nested CreateDirectory will re-create the artifact directory.
+            operations.push(FileSystemOperation::CreateDirectory(
+                artifact_directory.to_path_buf(),
+            ));
+        }
 
         for (new_server_object_entity_name, new_selectable_map) in &state.nested_files {
             let new_server_object_path = artifact_directory.join(new_server_object_entity_name);
